@@ -52,7 +52,23 @@ var (
 
 	gateMu sync.RWMutex
 	gates  = map[string]GateFunc{} // by key (context id or path prefix) ; "" = default
+
+	obsMu     sync.RWMutex
+	observers = map[string]func(Event){} // by the event's "ctx" value
 )
+
+// Observe registers a callback that is invoked (after the event has been
+// appended to the log, outside of the log's lock) for every hook event whose
+// "ctx" field equals key.
+func Observe(key string, fn func(Event)) {
+	obsMu.Lock()
+	if fn == nil {
+		delete(observers, key)
+	} else {
+		observers[key] = fn
+	}
+	obsMu.Unlock()
+}
 
 // Install installs the global sink and gate dispatcher (idempotent)
 func Install() {
@@ -69,8 +85,17 @@ func Install() {
 			}
 			mu.Lock()
 			seq++
-			events = append(events, Event{Seq: seq, Ev: ev, Gid: gid, KV: m})
+			e := Event{Seq: seq, Ev: ev, Gid: gid, KV: m}
+			events = append(events, e)
 			mu.Unlock()
+			if c, ok := m["ctx"].(string); ok {
+				obsMu.RLock()
+				fn := observers[c]
+				obsMu.RUnlock()
+				if fn != nil {
+					fn(e)
+				}
+			}
 		})
 		api.VerifSetGate(func(name, key string) string {
 			gateMu.RLock()
